@@ -21,6 +21,8 @@ func main() {
 		cmdUnit(os.Args[2:])
 	case "check":
 		os.Exit(cmdCheck(os.Args[2:]))
+	case "replay":
+		os.Exit(cmdReplay(os.Args[2:]))
 	case "witness":
 		os.Exit(cmdWitness(os.Args[2:]))
 	default:
